@@ -135,6 +135,12 @@ where
                                 &max_depth,
                                 symmetry,
                             );
+                            if job_broker.is_shut_down() {
+                                // Timed out, or another worker stopped: observed once per
+                                // block even if this worker never shares or requests work.
+                                log::debug!("{}: Market shut down. Shutting down...", t);
+                                return;
+                            }
                             if finish_when.matches(
                                 &discoveries.iter().map(|r| *r.key()).collect(),
                                 &properties,
